@@ -1,10 +1,13 @@
 """C10: FlatMap and ParameterizedObject against an insertion-ordered unique-key reference map (seqmc)."""
 from vcheck import Unit, ASAN, ASAN_ENV
 
+# exploration without symbolizer (a replay re-executes itself with symbolize=1, see harness/C10_seqmc.h)
+_ENV = dict(ASAN_ENV, ASAN_OPTIONS=ASAN_ENV["ASAN_OPTIONS"] + ":symbolize=0")
+
 UNITS_LOCAL = {"C10": [
     Unit("maps", ["harness/C10_maps.cpp"],
          repo_src=["rkcommon/utility/ParameterizedObject.cpp", "rkcommon/utility/demangle.cpp"],
-         flags=ASAN, env=ASAN_ENV, opt="-O1", engine="seqmc",
+         flags=ASAN, env=_ENV, opt="-O1", engine="seqmc",
          budget={"quick": 100, "thorough": 1000},
          rule=("every history of D mutating operations, each replayed on a fresh object inside a forked ASan+UBSan shard (every shorter history is a checked prefix). "
                "FlatMap<int,int> with D=6 (thorough 7) and FlatMap<string,string> (one key and one value longer than the small-string buffer) with D=5 (6), "
